@@ -1628,6 +1628,8 @@ def a_opt_from(ev, st, info, args):
 
 @ax("<std::borrow::Cow<'a, [T]> as std::convert::From<&'a [T]>>::from", '<std::borrow::Cow<[T]> as std::convert::From<&[T]>>::from',
     "<std::borrow::Cow<'a, str> as std::convert::From<&'a str>>::from", '<std::borrow::Cow<str> as std::convert::From<&str>>::from',
+    "std::string::<impl std::convert::From<&'a str> for std::borrow::Cow<'a, str>>::from", 'std::string::<impl std::convert::From<&str> for std::borrow::Cow<str>>::from',
+    "std::vec::cow::<impl std::convert::From<&'a [T]> for std::borrow::Cow<'a, [T]>>::from", 'std::vec::cow::<impl std::convert::From<&[T]> for std::borrow::Cow<[T]>>::from',
     note='Cow::Borrowed(x)')
 def a_cow_from(ev, st, info, args):
     return [(st, T.mk_adt('std::borrow::Cow', 'Borrowed', [('0', content(args[0]))]))]
@@ -1694,6 +1696,14 @@ def a_sock_ip(ev, st, info, args):
 def a_sock_port(ev, st, info, args):
     v = ('call', 'sock_port', (args[0],))
     T.TYPES[v] = 'u16'
+    T.NUMERIC[v] = True
+    return [(st, v)]
+
+
+@ax('std::net::SocketAddrV6::scope_id', 'std::net::SocketAddrV6::flowinfo', note='scope_id() / flowinfo() are the stored u32 fields')
+def a_sock_u32(ev, st, info, args):
+    v = ('call', 'sock_' + info['c']['path'].rsplit('::', 1)[-1], (args[0],))
+    T.TYPES[v] = 'u32'
     T.NUMERIC[v] = True
     return [(st, v)]
 
